@@ -23,7 +23,9 @@ Inductive sval :=
 | VNum (n : Z)
 | VBool (b : bool)
 | VClo (x : string) (b : tm) (r : senv)
-| VRec (defs : list (string * tm)) (r : senv).
+| VRec (fs : list (string * (sclos * bool))).
+   (* field -> (closure, does its definition depend on a sibling field).  A record literal
+      {f = e, ...} in r has the closures (e, ERec defs r); a merge has closures of several origins *)
 
 Fixpoint slookup (r : senv) (x : string) : option sclos :=
   match r with
@@ -36,15 +38,44 @@ Fixpoint slookup (r : senv) (x : string) : option sclos :=
       end
   end.
 
+Definition sfields := list (string * (sclos * bool)).
+
+Definition fields_of_lit (defs : list (string * tm)) (r : senv) : sfields :=
+  map (fun fe => (fst fe, ((snd fe, ERec defs r), fvb [] (map fst defs) (snd fe)))) defs.
+
+Definition sany_rev (fs : sfields) : bool := existsb (fun p => snd (snd p)) fs.
+
+(* the closure of a field defined on both sides of a merge: c1 & c2 *)
+Definition smerge_clos (c1 c2 : sclos) : sclos :=
+  (Op2 OMerge (Var "%1") (Var "%2"),
+   ECons "%1" (fst c1) (snd c1) (ECons "%2" (fst c2) (snd c2) ENil)).
+
+Definition smerge_fields (fs1 fs2 : sfields) : sfields :=
+  left_part fs1 fs2
+  ++ map (fun p => (fst p, (smerge_clos (fst (fst (snd p))) (fst (snd (snd p))), false))) (center_part fs1 fs2)
+  ++ left_part fs2 fs1.
+
 Definition sbinop (o : binop) (a b : sval) : res sval :=
-  match a, b with
-  | VNum x, VNum y =>
-      Val (match o with
-           | OAdd => VNum (x + y)
-           | OSub => VNum (x - y)
-           | OLt => VBool (Z.ltb x y)
-           end)
-  | _, _ => Err ETypeErr
+  match o with
+  | OMerge =>
+      match a, b with
+      | VNum x, VNum y => if Z.eqb x y then Val (VNum x) else Err ENonMergeable
+      | VBool x, VBool y => if Bool.eqb x y then Val (VBool x) else Err ENonMergeable
+      | VRec fs1, VRec fs2 =>
+          if sany_rev fs1 || sany_rev fs2 then Err EOutOfFragment
+          else Val (VRec (smerge_fields fs1 fs2))
+      | _, _ => Err ENonMergeable
+      end
+  | _ =>
+      match a, b with
+      | VNum x, VNum y =>
+          Val (match o with
+               | OAdd => VNum (x + y)
+               | OSub => VNum (x - y)
+               | _ => VBool (Z.ltb x y)
+               end)
+      | _, _ => Err ETypeErr
+      end
   end.
 
 Fixpoint seval (n : nat) (t : tm) (r : senv) : res sval :=
@@ -77,17 +108,18 @@ Fixpoint seval (n : nat) (t : tm) (r : senv) : res sval :=
             | VBool false => seval n e r
             | _ => Err ETypeErr
             end)
-      | Rec fs => Val (VRec fs r)
+      | Rec fs => Val (VRec (fields_of_lit fs r))
       | Proj e f =>
           bind (seval n e r) (fun ve =>
             match ve with
-            | VRec defs rr =>
-                match assoc defs f with
-                | Some ef => seval n ef (ERec defs rr)
+            | VRec fs =>
+                match assoc fs f with
+                | Some (cf, _) => seval n (fst cf) (snd cf)
                 | None => Err EFieldMissing
                 end
             | _ => Err ETypeErr
             end)
+      | Seq a b => bind (seval n a r) (fun _ => seval n b r)
       | Fail => Err EBlame
       end
   end.
@@ -97,7 +129,7 @@ Definition sobs (v : sval) : obs :=
   | VNum n => ONum n
   | VBool b => OBool b
   | VClo _ _ _ => OFun
-  | VRec defs _ => ORec (map fst defs)
+  | VRec fs => ORec (map fst fs)
   end.
 
 (* The stand-alone program `let x1 = e1 in ... in e`, evaluated to a weak head normal form. *)
@@ -112,11 +144,11 @@ Fixpoint top_senv (defs : list (string * tm)) (r : senv) : senv :=
   end.
 
 (* Full evaluation: force every field, last field first (as %force% does). *)
-Fixpoint force_fields (g : tm -> res data) (fs : list (string * tm)) : res (list (string * data)) :=
+Fixpoint force_fields (g : sclos -> res data) (fs : sfields) : res (list (string * data)) :=
   match fs with
   | [] => Val []
-  | (f, ef) :: fs' =>
-      bind (force_fields g fs') (fun ds => bind (g ef) (fun dv => Val ((f, dv) :: ds)))
+  | (f, (cf, _)) :: fs' =>
+      bind (force_fields g fs') (fun ds => bind (g cf) (fun dv => Val ((f, dv) :: ds)))
   end.
 
 Fixpoint sforce (n : nat) (v : sval) : res data :=
@@ -127,8 +159,8 @@ Fixpoint sforce (n : nat) (v : sval) : res data :=
       | VNum k => Val (DNum k)
       | VBool b => Val (DBool b)
       | VClo _ _ _ => Val DFun
-      | VRec defs rr =>
-          bind (force_fields (fun ef => bind (seval n ef (ERec defs rr)) (sforce n)) defs)
+      | VRec fs =>
+          bind (force_fields (fun cf => bind (seval n (fst cf) (snd cf)) (sforce n)) fs)
                (fun ds => Val (DRec ds))
       end
   end.
@@ -146,9 +178,9 @@ Fixpoint squery (n : nat) (c : sclos) (path : list string) : res sval :=
     | [] => Val v
     | f :: path' =>
         match v with
-        | VRec defs rr =>
-            match assoc defs f with
-            | Some ef => squery n (ef, ERec defs rr) path'
+        | VRec fs =>
+            match assoc fs f with
+            | Some (cf, _) => squery n cf path'
             | None => Err EFieldMissing
             end
         | _ => Err EQueryNonRecord
